@@ -84,7 +84,9 @@ def sweep():
 def sweep_values(nq, nt):
     return {"kind": "sweep", "profile": "values", "n_quick": nq, "n_thorough": nt, "per_shard": 500}
 
-REPLICAS = [{"TZ": "UTC", "GOMAXPROCS": "1"}, {"TZ": "Europe/Warsaw", "GOMAXPROCS": "8", "VERIF_QUERIES": "1"}, {"TZ": "America/St_Johns", "GOMAXPROCS": "3"}]
+REPLICAS = [{"TZ": "UTC", "GOMAXPROCS": "1"},
+            {"TZ": "Europe/Warsaw", "GOMAXPROCS": "8", "VERIF_QUERIES": "1", "VERIF_CRISIS_SKIP": "1"},
+            {"TZ": "America/St_Johns", "GOMAXPROCS": "3", "VERIF_INV_CHECK_PERIOD": "1"}]
 
 PROPS = {
     "C01": {
@@ -122,7 +124,8 @@ PROPS = {
                  {"kind": "upgrade", "profile": "tz", "n_quick": 200, "n_thorough": 6000, "per_shard": 20, "env": {"TZ": "Europe/Warsaw"}},
                  {"kind": "upgrade", "profile": "tz", "n_quick": 100, "n_thorough": 3000, "per_shard": 20, "env": {"TZ": "America/St_Johns"}}],
         "preds": ["C11."],
-        "rule": APP_RULE + "; C11: every history is executed in three separate OS processes with different TZ and GOMAXPROCS; app hash after every Commit, "
+        "rule": APP_RULE + "; C11: every history is executed in three separate OS processes with different TZ, GOMAXPROCS and node-local x/crisis settings (one skips the "
+                "genesis assertion of the invariants, one checks the invariants after every block); app hash after every Commit, "
                 "DeliverTx (code, codespace, data, events) and BeginBlock/EndBlock events are compared line by line; the v1.2.0 upgrade functions run on "
                 "generated pre-upgrade stores in processes with TZ=Europe/Warsaw and TZ=America/St_Johns, and the account records they write are compared with "
                 "what a node in UTC writes (and with the Coq model of the upgrade)",
